@@ -162,6 +162,11 @@ func famIdentity(w *World, c *Case, rng *rand.Rand) {
 				Client:  []Op{{K: "open"}, {K: "chanctx", N: mut}, {K: "send", N: 10}, {K: "recv"}, {K: "chanctx", N: mut}, {K: "close"}, {K: "recvall"}},
 				Handler: []Op{{K: "ident", N: mut}, {K: "recv"}, {K: "send", N: 5}, {K: "ident"}, {K: "recv"}, {K: "ret"}}}
 		}
+		if rng.Intn(3) == 0 {
+			// a deadline only the serving side learns of (the handler's context is then built
+			// on a different path); far enough away never to matter
+			s.GrpcTimeout = []string{"1H", "30M", "1000S"}[rng.Intn(3)]
+		}
 		specs = append(specs, s)
 	}
 	// a long-lived call whose stream context (already tagged with the tunnel that carries it) and
@@ -272,6 +277,9 @@ func famIdentity(w *World, c *Case, rng *rand.Rand) {
 					want[k] = vals
 				}
 				want.Set("x-rpc", s.ID)
+				if s.GrpcTimeout != "" {
+					want.Set("grpc-timeout", s.GrpcTimeout)
+				}
 				if d := mdDiff(want, r.MD); d != "" {
 					w.Violate("C17", "handler-request-metadata-wrong", "rpc %s: request metadata in handler = %s, want %s (%s)", s.ID, mdString(r.MD), mdString(want), d)
 				}
